@@ -66,6 +66,14 @@ class Sym:
         if 'bytes' in c:
             return ('cbytes', c['bytes'], c.get('ty', ''))
         if 'item' in c:
+            # a named constant that did not exist on the reference tree ("name the magic number") is just its value; constants the
+            # rules know by name (VERSION, TRANS_INDEX_THRESHOLD, the tables ...) stay symbolic
+            cr = getattr(self.fn, 'crate', None)
+            rc = getattr(cr, 'ref_consts', None) if cr is not None else None
+            if rc is not None and c['item'] not in rc:
+                v = cr.const_scalar(c['item'])
+                if v is not None:
+                    return ('const', v)
             return ('citem', c['item'])
         return ('cother', c.get('disp'), c.get('ty'))
 
@@ -219,7 +227,7 @@ class Sym:
             if inner[0] == 'call' and isinstance(inner[1], str) and (inner[1].endswith('Try>::branch') or inner[1].endswith('Try::branch')):
                 return ('okof', inner[2][0])
         if h == 'bin' and base[1].endswith('WithOverflow') and el == '0':
-            return ('bin', base[1][:-len('WithOverflow')], base[2], base[3])
+            return fold_bin(('bin', base[1][:-len('WithOverflow')], base[2], base[3]))
         if el.startswith('['):
             return ('index', base, el)
         return ('field', base, el)
@@ -236,7 +244,7 @@ class Sym:
         if 'raw_ptr' in rv:
             return self.place_at(rv['raw_ptr'], pos)
         if 'bin' in rv:
-            return ('bin', rv['bin'], self.operand_at(rv['a'], pos), self.operand_at(rv['b'], pos))
+            return fold_bin(('bin', rv['bin'], self.operand_at(rv['a'], pos), self.operand_at(rv['b'], pos)))
         if 'cast' in rv:
             p = op_place(rv['a'])
             from_ty = None
@@ -528,6 +536,21 @@ def simplify_proj(e):
             inner = b[1]
             if inner[0] == 'call' and isinstance(inner[1], str) and (inner[1].endswith('Try>::branch') or inner[1].endswith('Try::branch')):
                 return ('okof', inner[2][0])
+    return e
+
+
+def fold_bin(e):
+    """arithmetic on two literals is a literal (`32 - MASK_ROTATE`, `1 << 8`): unoptimised MIR keeps the operation"""
+    if e[2][0] == 'const' and e[3][0] == 'const' and not e[1].endswith('WithOverflow'):
+        a, b = e[2][1], e[3][1]
+        op = e[1].replace('Unchecked', '')
+        try:
+            v = {'Add': a + b, 'Sub': a - b, 'Mul': a * b, 'Shl': a << b if b < 128 else None, 'Shr': a >> b if b < 128 else None,
+                 'BitAnd': a & b, 'BitOr': a | b, 'BitXor': a ^ b}.get(op)
+        except (TypeError, ValueError):
+            v = None
+        if v is not None and 0 <= v < (1 << 64):
+            return ('const', v)
     return e
 
 
